@@ -320,9 +320,16 @@ class IncludeIpsNode(NodeProtocol):
                     raise RuntimeError(f"{self.ips_file_path} is truncated (incomplete record header)")
                 block_addr = int.from_bytes(block_addr_bytes, "big")
                 block_size = int.from_bytes(block_size_bytes, "big")
-                block = ips_file.read(block_size)
-                if len(block) < block_size:
-                    raise RuntimeError(f"{self.ips_file_path} is truncated (incomplete record data)")
+                if block_size == 0:
+                    # run-length record: 2-byte run length, 1-byte value
+                    rle = ips_file.read(3)
+                    if len(rle) < 3:
+                        raise RuntimeError(f"{self.ips_file_path} is truncated (incomplete RLE record)")
+                    block = rle[2:] * int.from_bytes(rle[:2], "big")
+                else:
+                    block = ips_file.read(block_size)
+                    if len(block) < block_size:
+                        raise RuntimeError(f"{self.ips_file_path} is truncated (incomplete record data)")
 
                 if self.delta is not None:
                     block_addr += self.delta
